@@ -40,7 +40,12 @@ def fluid_obj(ctx):
     return o
 
 
+PDT = ["f8"]
+
+
 def parr():
+    if PDT[0] == "i8":
+        return ArrV((n,), lambda i: tm.app("p_in", i, tm.I), "i8")
     return ArrV((n,), lambda i: tm.app("p_in", i), "f8")
 
 
@@ -61,6 +66,25 @@ def build(ctx):
 
     def facade(name, extra, target, targs):
         def run():
+            global PJ
+            v = run_dt()
+            if v.status != be.PROVED:
+                return v
+            PDT[0] = "i8"
+            saved = PJ
+            PJ = tm.app("p_in", [j], tm.I)
+            try:
+                v2 = run_dt()
+            finally:
+                PDT[0] = "f8"
+                PJ = saved
+            if v2.status != be.PROVED:
+                v2.detail = "[int64 pressure array] " + v2.detail
+                return v2
+            return v
+
+        def run_dt():
+            unj = {PJ: (pj if PDT[0] == "f8" else tm.var("pj", tm.I))}
             f = ctx.engine.func(FL + name)
             outs = ctx.engine.run_paths(f, lambda: ([fluid_obj(ctx), parr()] + list(extra), {}), pc=[tm.ge(n, tm.const(1))])
             rets = [o for o in outs if o.kind == "return"]
@@ -74,6 +98,8 @@ def build(ctx):
                 res = res.arr if hasattr(res, "arr") else res
                 if not isinstance(res, ArrV) or res.ndim != 1:
                     return be.Verdict(be.REFUTED, "CAS", witness={}, detail=f"Fluid.{name} does not return a 1-D array")
+                if res.dtype not in ("f8", "f4"):
+                    return be.Verdict(be.REFUTED, "CAS", witness={}, detail=f"Fluid.{name} returns an integer array for {'int64' if PDT[0] == 'i8' else 'float64'} pressures: values are truncated")
                 if res.shape[0] is not n:
                     return be.Verdict(be.REFUTED, "CAS", witness={}, detail=f"Fluid.{name} returns an array of length {res.shape[0]}, not len(pressure)")
                 facts = [q(j) for q in o.qfacts] + list(o.facts) + list(o.pc)
@@ -99,7 +125,7 @@ def build(ctx):
                 e2 = tm.subst(tm.subst(elem, {c: tm.FALSE for c in known_false}), unj)
                 s2 = tm.subst(tm.subst(spec, {c: tm.FALSE for c in known_false}), unj)
                 hyp = tm.land(*[tm.lnot(tm.subst(c, unj)) for c in known_false]) if known_false else None
-                v = equal_by_cases(e2, s2, BOX, ctx.seed, hyp=hyp, facts=[tm.subst(f_, unj) for f_ in facts if f_.sort == tm.B])
+                v = equal_by_cases(e2, s2, BOX, ctx.seed, hyp=hyp, ints=(("pj",) if PDT[0] == "i8" else ()), facts=[tm.subst(f_, unj) for f_ in facts if f_.sort == tm.B])
                 if v.status != be.PROVED:
                     v.detail = f"Fluid.{name}(pressure)[j] != {target.split(':')[1]}(attributes..., pressure[j]): " + v.detail
                     return with_models(v, o)
@@ -118,17 +144,25 @@ def build(ctx):
             cand += [dict(T=200.0, api=35.0, gg=0.8, R=650.0, S=3.0, Tpc=-72.0, Ppc=650.0, pj=2000.0), dict(T=150.0, api=30.0, gg=0.9, R=400.0, S=10.0, Tpc=-50.0, Ppc=640.0, pj=4000.0)]
             for c in cand:
                 fl = Fl(c["T"], c["api"], c["gg"], c["R"], c["S"])
-                ps = np.array([c["pj"], 500.0, 1500.0, 3000.0, 6000.0])
                 args = [c[k] for k in extra_names]
-                try:
-                    got = np.asarray(getattr(fl, name)(ps, *args), dtype=float)
-                    want = np.array([real(target)(*[(x if k != "pj" else float(x_p)) for k, x in order(c)]) for x_p in ps for _ in [0]], dtype=float) if False else np.array([real(target)(*[(float(pp) if k == "pj" else v) for k, v in order(c)]) for pp in ps], dtype=float)
-                except Exception as e:  # noqa: BLE001
-                    return {"reproduced": True, "input": c, "observed": f"{type(e).__name__}: {e}", "required": "elementwise equality with the stand-alone correlation"}
-                if not close(got, want, 1e-10):
-                    return {"reproduced": True, "input": {**c, "pressures": ps.tolist()}, "observed": got.tolist(), "required": want.tolist()}
+                pbr = real(OIL + "pressure_bubblepoint_Standing")(c["T"], c["api"], c["gg"], c["R"])
+                for ps in (np.array([c["pj"], 500.0, 1500.0, 3000.0, 6000.0, pbr]), np.arange(500, 6001, 500)):
+                    r_ = _cmp(fl, name, args, target, order, c, ps)
+                    if r_ is not None:
+                        return r_
             return {"reproduced": False}
         return rp
+
+    def _cmp(fl, name, args, target, order, c, ps):
+        import numpy as np
+        try:
+            got = np.asarray(getattr(fl, name)(ps, *args))
+            want = np.array([real(target)(*[(float(pp) if k == "pj" else v) for k, v in order(c)]) for pp in ps], dtype=float)
+        except Exception as e:  # noqa: BLE001
+            return {"reproduced": True, "input": {**c, "pressures": ps.tolist()}, "observed": f"{type(e).__name__}: {e}", "required": "elementwise equality with the stand-alone correlation"}
+        if got.dtype.kind != "f" or not close(got.astype(float), want, 1e-10):
+            return {"reproduced": True, "input": {**c, "pressures": ps.tolist(), "dtype": str(ps.dtype)}, "observed": {"values": got.astype(float).tolist(), "dtype": str(got.dtype)}, "required": want.tolist()}
+        return None
 
     ORDER = {
         "water_FVF": lambda c: [("T", c["T"]), ("pj", None)],
